@@ -144,7 +144,7 @@ fn run(ch: Chooser, ctx: &RunCtx, mut opts: BasicOpts, clean_path: bool) -> RunO
         opts.retry = 300;
     } else {
         if opts.op_kinds == vec![0, 1, 2, 3, 4] {
-            opts.op_kinds = vec![0, 1, 2, 3, 4, 5, 7];
+            opts.op_kinds = vec![0, 1, 2, 3, 4, 5, 7, 9];
         }
     }
     let mut sc = Basic::build(&mut w, opts);
